@@ -1203,6 +1203,13 @@ func (p *PairV2) orderSellLoadToIndex(index int) *Limit {
 			lenOrders := len(orders)
 			if lenOrders != 0 && orders[lenOrders-1] != 0 {
 				fromOrder = p.order(orders[lenOrders-1])
+			} else if loaded := p.loadedSellOrderIDs(); lenOrders == 0 && len(loaded) != 0 && loaded[len(loaded)-1] != 0 {
+				// every order paged in so far has been removed in this block:
+				// keep paging after the last one instead of reporting an empty book
+				fromOrder = p.order(loaded[len(loaded)-1])
+				if fromOrder == nil {
+					break
+				}
 			} else {
 				break
 			}
